@@ -195,3 +195,39 @@ Definition good_removalb (s : spl) (comb : list nat) : bool :=
       end
   | inl _ => false
   end.
+
+Definition groups_of (r : cerr + (list assignment * list (list nat))) : option (list (list nat)) :=
+  match r with inr (_, g) => Some g | inl _ => None end.
+
+(* the same partition, indexed by the jobs of the remaining splitter (the splitter with the combined fields
+   deleted): one group per job of the remaining splitter, in its enumeration order, each holding in order the jobs
+   whose remaining fields equal it; defined when every job's remaining assignment is such a job *)
+Definition has_key (k : assignment) (ks : list assignment) : bool := existsb (key_eqb k) ks.
+Definition spec_groups_pruned (e : env) (s : spl) (comb : list nat) : option (list (list nat)) :=
+  match jobs e s with
+  | None => None
+  | Some js =>
+      let gone := linked s comb in
+      let keys := map (forget gone) js in
+      match prune gone s with
+      | None => Some [seq 0 (List.length js)]
+      | Some s' =>
+          match jobs e s' with
+          | None => None
+          | Some ks => if forallb (fun k => has_key k ks) keys
+                       then Some (map (fun k => positions k keys 0) ks) else None
+          end
+      end
+  end.
+
+(* the class for which the two formulations of the reference partition are proved to coincide: every inner product
+   is over plain fields, and is combined as a whole or not at all (both computable) *)
+Definition is_fld (s : spl) : bool := match s with Fld _ => true | _ => false end.
+Fixpoint flat_innerb (s : spl) : bool :=
+  match s with Fld _ => true | Outer l => forallb flat_innerb l | Inner l => forallb is_fld l end.
+Fixpoint closedb (gone : list nat) (s : spl) : bool :=
+  match s with
+  | Fld _ => true
+  | Outer l => forallb (closedb gone) l
+  | Inner l => forallb (fun f => memb f gone) (flat_map leaves l) || forallb (fun f => negb (memb f gone)) (flat_map leaves l)
+  end.
